@@ -66,6 +66,12 @@ def load_cases(root: str, prop: str | None = None):
                 meta = json.load(open(os.path.join(sdir, d, "meta.json")))
                 cases.append({"id": f"seed:{d}", "props": meta.get("detected_by") or [meta["property"]], "kind": "breaking", "diff": open(pf).read(), "source": "seeded",
                               "why": meta.get("summary", ""), "expect": meta.get("expect_rules", [])})
+    # generated whole-package behaviour-preserving variants: every check must stay silent on each of them
+    from selftest.gen import transform as _T
+
+    for gid, why in (("gen:reformat-all", "every module round-tripped through ast.unparse (comments dropped, layout / quotes / parentheses normalised)"),
+                     ("gen:rename-locals-all", "every renameable local of every function of the package renamed (suffix _q)")):
+        cases.append({"id": gid, "props": [f"C{i:02d}" for i in range(1, 21)], "kind": "benign", "gen": gid, "source": "generated", "why": why})
     rf = os.path.join(HERE, "reverts.json")
     if os.path.exists(rf):
         for c in json.load(open(rf)):
@@ -80,6 +86,16 @@ def load_cases(root: str, prop: str | None = None):
 def overlay_for(root: str, case) -> dict[str, str] | None:
     if "diff" in case:
         return _apply_diff(root, case["diff"], reverse=case.get("reverse", False))
+    if "gen" in case:
+        import glob
+        from selftest.gen import transform as _T
+
+        fn = _T.reformat if case["gen"] == "gen:reformat-all" else _T.rename_locals
+        ov = {}
+        for path in glob.glob(os.path.join(root, "aiohttp", "**", "*.py"), recursive=True):
+            with open(path, encoding="utf-8") as fh:
+                ov[os.path.relpath(path, root)] = fn(fh.read())
+        return ov
     if "range" in case:  # several dependent fix commits reverted together: reverse of `git diff A B`
         p = subprocess.run(["git", "-C", root, "diff", case["range"][0], case["range"][1]], stdout=subprocess.PIPE, text=True)
         if p.returncode != 0 or not p.stdout.strip():
